@@ -16,14 +16,20 @@ class Attrs:
     """entries: list of (idx, id or None) sorted by idx; None = hidden (omitFromKeys, id 0). omit_all: list flag."""
 
     def __init__(self, entries, omit_all=False):
-        self.entries = [(int(i), (None if v is None else int(v))) for i, v in entries]
+        """entries: (idx, id) with id None = hidden (flag set, id 0), or (idx, id, flag) to set the flag together with a value."""
+        self.entries = []
+        self.flags = []
+        for e in entries:
+            i, v = e[0], e[1]
+            self.entries.append((int(i), (None if v is None else int(v))))
+            self.flags.append(bool(e[2]) if len(e) > 2 else v is None)
         self.omit_all = bool(omit_all)
 
     def c_args(self):
         n = len(self.entries)
         ids = b"".join(conv.bi(0 if v is None else v, 256) for _, v in self.entries)
         idxs = (ctypes.c_uint32 * max(n, 1))(*[i for i, _ in self.entries])
-        omits = bytes(1 if v is None else 0 for _, v in self.entries)
+        omits = bytes(1 if f else 0 for f in self.flags)
         return [ids, idxs, omits, ctypes.c_size_t(n), ctypes.c_int(1 if self.omit_all else 0)]
 
     def __len__(self):
